@@ -70,6 +70,57 @@ def run_impl(loop, rx, tx, failed, pend, frames):
     return out
 
 
+def wire_of(fs):
+    """specification bytes of a frame given in the alphabet's notation (None for shapes the byte level cannot carry)"""
+    k = fs.split(":")
+    try:
+        if k[0] == "D":
+            pl = b"" if k[4] == "-" else bytes.fromhex(k[4])
+            if not pl:
+                return None
+            return ashlib.spec_wire("D", frm=int(k[1]), retx=int(k[2]), ack=int(k[3]), payload=pl)
+        if k[0] in "AN":
+            return ashlib.spec_wire(k[0], ack=int(k[3]))
+        if k[0] == "R":
+            return ashlib.spec_wire("R")
+        if k[0] in "KE":
+            return ashlib.spec_wire(k[0], code=int(k[2]))
+    except Exception:  # noqa: BLE001
+        return None
+    return None
+
+
+def run_read(rx, frames):
+    """all the frames arrive in ONE read; returns the events of that read"""
+    p, log = ashlib.make_proto(rx, 0)
+    chunk = b"".join(wire_of(f) for f in frames)
+    try:
+        p.data_received(chunk)
+    except Exception as e:  # noqa: BLE001
+        log.append(f"!{type(e).__name__}")
+    return list(log), p._rx_seq
+
+
+def expect_read(rx, frames, ackw, nakw):
+    """the receiver's rules applied frame by frame: every DATA frame has its own answer, in arrival order"""
+    ev = []
+    for fs in frames:
+        k = fs.split(":")
+        if k[0] == "D":
+            n, r = int(k[1]), int(k[2])
+            if n == rx:
+                rx = (rx + 1) % 8
+                ev += ["W" + ackw[rx], "U" + k[4]]
+            else:
+                ev += ["W" + (ackw[rx] if r else nakw[rx])]
+        elif k[0] == "K":
+            ev += ["R" + k[2]]
+            rx = 0
+        elif k[0] == "E":
+            ev += ["R" + k[2]]
+    return ev, rx
+
+
 def oracle(rx0, frames, trace, ackw, nakw):
     """the property on the implementation's trace; returns (index, message) or None"""
     rx = rx0
@@ -193,8 +244,25 @@ def run(ctx):
             ctx.corr_diff("frame_received trace differs", {"rx": rx, "tx": tx, "failed": fl, "pending": list(pend), "frames": fr[:8]}, "|".join(tr)[:600], model[i][:600])
         if i % 9000 == 5:
             ctx.sample({"rx": rx, "frames": fr[:6], "impl": tr[:6], "model": model[i][:300] if model else None})
+    # ---- several frames in one read: each DATA frame still gets its own answer, in arrival order (through data_received)
+    byte_al = [a for a in al if wire_of(a) is not None]
+    reads = []
+    for rx in range(8):
+        for w in itertools.product(byte_al, repeat=2):
+            if rng.random() < ctx.n(0.15, 1.0):
+                reads.append((rx, list(w)))
+    for _ in range(ctx.n(2000, 20000)):
+        reads.append((rng.randrange(8), [rng.choice(byte_al) for _ in range(rng.randint(3, 6))]))
+    for rx, fr in reads:
+        got, rx_after = run_read(rx, fr)
+        want, rx_want = expect_read(rx, fr, ackw, nakw)
+        ctx.cov["evaluations"] += 1
+        ctx.count("frames-in-one-read")
+        if got != want or rx_after != rx_want:
+            ctx.violation(f"frames {fr} arriving in one read with rx_seq {rx}: events {got} (rx_seq {rx_after}), expected {want} (rx_seq {rx_want}): every DATA frame "
+                          f"is answered by its own ACK or NAK, in order", {"kind": "receiver-read"}, {"read": True, "rx": rx, "frames": fr})
     ctx.cov["distinct_nontrivial"] = nontriv
-    ctx.cov["rule"] = (f"every sequence of length 1..2 over a {len(al)}-letter frame alphabet (DATA for all frmNum x reTx x two ackNums, ACK, NAK, RST, RSTACK/ERROR with software/other/undefined codes) "
+    ctx.cov["rule"] = (f"two to six frames of the alphabet arriving in ONE read through data_received (all pairs sampled in quick, exhaustive in thorough; random longer reads): the events equal the frame-by-frame rules; every sequence of length 1..2 over a {len(al)}-letter frame alphabet (DATA for all frmNum x reTx x two ackNums, ACK, NAK, RST, RSTACK/ERROR with software/other/undefined codes) "
                        "from each of the 8 rx_seq states (exhaustive); length-3 sequences (sampled in quick, exhaustive in thorough); random sequences with ack futures installed, "
                        "failed flag and tx_seq varied; 200-frame runs wrapping the frame number; non-trivial = distinct case containing an accepted and a rejected DATA frame")
     ctx.exhaustive = True
@@ -210,6 +278,14 @@ def replay(ctx, obj):
     out = ctx.driver([f"c03 wire - A:0:0:{n}" for n in range(8)] + [f"c03 wire - N:0:0:{n}" for n in range(8)])
     ackw = [o.split()[1] for o in out[:8]]
     nakw = [o.split()[1] for o in out[8:]]
+    if r.get("read"):
+        got, rx_after = run_read(r["rx"], r["frames"])
+        want, rx_want = expect_read(r["rx"], r["frames"], ackw, nakw)
+        bad = got != want or rx_after != rx_want
+        print(f"replay one read rx={r['rx']} frames={r['frames']}: {got}, expected {want}: {'FAILS' if bad else 'ok'}")
+        if bad:
+            print(f"VIOLATION property={ctx.pid} replay=replay")
+        return 1 if bad else 0
     tr = run_impl(loop, r["rx"], r["tx"], r["failed"], tuple(r["pending"]), r["frames"])
     bad = oracle(r["rx"], r["frames"], tr, ackw, nakw)
     print(f"replay rx={r['rx']} frames={r['frames']}: {tr}: {'FAILS: ' + bad[1] if bad else 'ok'}")
